@@ -1,3 +1,205 @@
-"""Kani harness runner (filled in per property)."""
-def submit_all(ex, cfg, here, out, repo, thorough):
-    return {}
+"""Kani units: generate the harness crate from its template (real files via #[path], verbatim cuts,
+rule X1), run `cargo kani`, classify per harness."""
+import os
+import re
+import shutil
+import subprocess
+import time
+
+from .cut import SourceFile, LostAnchor, sha
+from .rustlex import LexError
+
+X1_PARAM = re.compile(r"mut\s+caller\s*:\s*Caller<'_,\s*RuntimeState>")
+X1_PREFIX = re.compile(r"let\s+state\s*=\s*caller\.data_mut\(\);\s*let\s+current\s*=\s*state\.get_current_state\(\);")
+
+
+def generate(unit, here, out, repo, subst, instance=None):
+    """returns (crate_dir, files[list of functions_under_contract dicts])"""
+    src_dir = os.path.join(here, "kani", unit)
+    dst = os.path.join(out, "kani", instance or unit)
+    if os.path.exists(dst):
+        shutil.rmtree(dst, ignore_errors=True)
+    os.makedirs(os.path.join(dst, "src"))
+    files = []
+    cache = {}
+
+    def sf(path):
+        p = os.path.join(repo, path)
+        if p not in cache:
+            if not os.path.exists(p):
+                raise LostAnchor(f"missing file {p}")
+            cache[p] = SourceFile(p)
+        return cache[p]
+
+    for root, _, names in os.walk(src_dir):
+        for nm in names:
+            sp = os.path.join(root, nm)
+            rel = os.path.relpath(sp, src_dir)
+            txt = open(sp).read()
+            txt = txt.replace("@REPO@", repo)
+            for k, v in subst.items():
+                txt = txt.replace("@" + k + "@", str(v))
+            lines = []
+            for ln in txt.split("\n"):
+                m = re.match(r"\s*//@KCUT(_X1)? (\S+) :: (.*)$", ln)
+                if not m:
+                    lines.append(ln)
+                    continue
+                f = sf(m.group(2))
+                it = f.find(m.group(3).strip())
+                raw = f.text(it)
+                s, e, l0, l1 = f.span(it)
+                dropped = []
+                text = raw
+                if m.group(1):
+                    if len(X1_PARAM.findall(text)) != 1 or len(X1_PREFIX.findall(text)) != 1:
+                        raise LostAnchor(f"X1 prefix not found literally in {m.group(3)}")
+                    text = X1_PARAM.sub("current: &mut StateStorage", text)
+                    text = X1_PREFIX.sub("", text)
+                    dropped = ["X1: `mut caller: Caller<'_, RuntimeState>` -> `current: &mut StateStorage`; "
+                               "dropped `let state = caller.data_mut(); let current = state.get_current_state();`"]
+                lines.append(f"// ---- vx cut {m.group(2)} :: {m.group(3)} (lines {l0}-{l1}, sha256 {sha(raw)[:16]}) ----")
+                lines.append(text)
+                lines.append("// ---- vx end ----")
+                files.append({"unit": "kani/" + unit, "item": m.group(3).strip(), "file": m.group(2), "lines": [l0, l1],
+                              "sha256": sha(raw), "extraction": dropped or ["verbatim"]})
+            # #[path] includes
+            for mm in re.finditer(r'#\[path = "(.*?)"\]', txt):
+                p = mm.group(1)
+                if os.path.exists(p):
+                    files.append({"unit": "kani/" + unit, "item": "whole file (#[path] include, compiled unchanged)",
+                                  "file": os.path.relpath(p, repo), "lines": [1, open(p).read().count("\n")],
+                                  "sha256": sha(open(p).read()), "extraction": ["verbatim"]})
+                else:
+                    raise LostAnchor(f"missing file {p}")
+            os.makedirs(os.path.dirname(os.path.join(dst, rel)), exist_ok=True)
+            open(os.path.join(dst, rel), "w").write("\n".join(lines))
+    lock = os.path.join(repo, "Cargo.lock")
+    if os.path.exists(lock):
+        shutil.copy(lock, os.path.join(dst, "Cargo.lock"))
+    return dst, files
+
+
+def run_kani(unit, harnesses, here, out, repo, subst, bound_note, instance=None, timeout=3000):
+    """run all harnesses of a unit in one cargo-kani invocation; returns list of result dicts"""
+    t0 = time.time()
+    try:
+        crate, files = generate(unit, here, out, repo, subst, instance)
+    except (LostAnchor, LexError) as e:
+        return [{"harness": f"{unit}::*", "status": "undecided", "reason": f"{type(e).__name__}: {e}", "checks": 0,
+                 "cmd": "", "files": []}]
+    tgt = os.path.join(out, "target-kani-" + (instance or unit))
+    cmd = ["cargo", "kani", "-Z", "function-contracts", "-Z", "stubbing", "--output-format", "terse", "-j", "8"]
+    for h in harnesses:
+        cmd += ["--harness", h["name"]]
+    env = dict(os.environ, CARGO_NET_OFFLINE="true", CARGO_TARGET_DIR=tgt)
+    try:
+        p = subprocess.run(cmd, cwd=crate, env=env, capture_output=True, text=True, timeout=timeout)
+        outp = p.stdout + "\n" + p.stderr
+    except subprocess.TimeoutExpired as e:
+        outp = (e.stdout or b"").decode(errors="replace") if isinstance(e.stdout, bytes) else (e.stdout or "")
+        return [{"harness": f"{unit}::*", "status": "undecided", "reason": "kani timeout", "checks": 0,
+                 "cmd": " ".join(cmd), "files": files}]
+    wall = time.time() - t0
+    results = []
+    # split per harness; with -j every line of a worker is introduced by "Thread N: "
+    seen = {}
+    cur = {}          # thread -> harness name
+    active = None     # harness whose result block is being collected
+    for ln in outp.split("\n"):
+        m = re.match(r"(?:Thread (\d+): )?Checking harness (\S+?)\.\.\.", ln)
+        if m:
+            th = m.group(1) or "0"
+            name = m.group(2).split("::")[-1]
+            cur[th] = name
+            seen.setdefault(name, "")
+            active = name if m.group(1) is None else None
+            continue
+        m = re.match(r"Thread (\d+): ?(.*)$", ln)
+        if m:
+            active = cur.get(m.group(1))
+            if active is not None:
+                seen[active] += m.group(2) + "\n"
+            continue
+        if ln.startswith("Manual Harness Summary") or ln.startswith("Complete - "):
+            active = None
+            continue
+        if active is not None:
+            seen[active] += ln + "\n"
+    compile_failed = "error: could not compile" in outp or re.search(r"^error(\[E\d+\])?:", outp, re.M) and "VERIFICATION" not in outp
+    for h in harnesses:
+        name = h["name"]
+        r = {"harness": f"{unit}::{name}", "fn": h.get("fn"), "cmd": " ".join(cmd), "files": files if h is harnesses[0] else [],
+             "checks": 0, "bound": h.get("bound") and bound_note, "solver_s": 0.0, "samples": []}
+        ch = seen.get(name)
+        if compile_failed or ch is None:
+            r["status"] = "undecided"
+            errl = [l for l in outp.split("\n") if l.startswith("error")][:3]
+            r["reason"] = "harness crate does not compile against the current tree / no result: " + " | ".join(errl)[:300]
+            r["output"] = outp[-3000:]
+            results.append(r)
+            continue
+        mc = re.search(r"\*\* (\d+) of (\d+) failed", ch)
+        if mc:
+            r["checks"] = int(mc.group(2))
+            nfail = int(mc.group(1))
+        else:
+            nfail = None
+        mt = re.search(r"Verification Time: ([\d.]+)s", ch)
+        if mt:
+            r["solver_s"] = float(mt.group(1))
+        if "VERIFICATION:- SUCCESSFUL" in ch:
+            # covers must be satisfied (reachability / non-vacuity)
+            mcov = re.search(r"(\d+) of (\d+) cover properties satisfied", ch)
+            if mcov and mcov.group(1) != mcov.group(2):
+                r["status"] = "undecided"
+                r["reason"] = f"cover not satisfied ({mcov.group(1)}/{mcov.group(2)}): harness precondition may be vacuous"
+            else:
+                r["status"] = "ok"
+                r["samples"] = [{"harness": name, "checks": r["checks"], "doc": h.get("doc", "")}]
+        elif "VERIFICATION:- FAILED" in ch:
+            fails = re.findall(r"Failed Checks: (.*)", ch)
+            if any("unwinding assertion" in f for f in fails) or "CBMC failed" in ch or "out of memory" in ch.lower():
+                r["status"] = "undecided"
+                r["reason"] = "unwinding assertion / solver failure: " + "; ".join(fails)[:300]
+            else:
+                r["status"] = "violation"
+                r["failed"] = fails
+                r["output"] = ch[-4000:]
+        else:
+            r["status"] = "undecided"
+            r["reason"] = "no verdict in kani output"
+            r["output"] = ch[-2000:]
+        results.append(r)
+    if results:
+        results[0]["wall_s"] = wall
+    return results
+
+
+def concrete_playback(unit, harness, here, out, repo, subst):
+    """re-run one failed harness with concrete playback to obtain the counterexample values"""
+    crate = os.path.join(out, "kani", unit)
+    tgt = os.path.join(out, "target-kani-" + unit)
+    cmd = ["cargo", "kani", "-Z", "function-contracts", "-Z", "stubbing", "-Z", "concrete-playback",
+           "--concrete-playback=print", "--harness", harness]
+    env = dict(os.environ, CARGO_NET_OFFLINE="true", CARGO_TARGET_DIR=tgt)
+    try:
+        p = subprocess.run(cmd, cwd=crate, env=env, capture_output=True, text=True, timeout=1800)
+    except subprocess.TimeoutExpired:
+        return None
+    m = re.search(r"```\n(.*?)```", p.stdout, re.S)
+    return m.group(1) if m else None
+
+
+class _Fut:
+    """adapter so check.py can treat one kani invocation (many harnesses) as several futures"""
+
+
+def submit_all(ex, cfg, here, out, repo, thorough, prop=""):
+    futs = {}
+    for ku in cfg.get("kani_units", []):
+        subst = dict(ku.get("subst_thorough" if thorough else "subst_quick", {}))
+        note = ku.get("bound_note", "").format(**subst)
+        f = ex.submit(run_kani, ku["unit"], ku["harnesses"], here, out, repo, subst, note, f"{prop}-{ku['unit']}")
+        futs[f] = ku
+    return futs
